@@ -65,7 +65,7 @@ PROBES = ["variable_at_bound", "asymptote_decrease", "asymptote_increase", "acti
           "per_signal_bounds", "per_variable_move", "per_signal_move", "float_signal", "arr1_signal", "vector_signal",
           "multi_signal", "response_without_signal", "start_on_bound", "infeasible_start", "converged_tolx", "maxit_reached",
           "newton_cap_message", "version_1987", "version_2007", "constraint_active_at_optimum", "bound_active_at_optimum",
-          "liveness_judged", "concat_network", "spy_installed", "work_counter_seen"]
+          "liveness_judged", "concat_network", "spy_installed", "work_counter_seen", "integer_typed_start"]
 FAULT_KINDS = []
 COMPONENTS = {"real": ["pymoto.minimize_mma", "pymoto.common.mma.MMA / mmasub / subsolv", "pymoto.Network / Module backpropagation",
                        "pymoto.utils._concatenate_to_array", "numpy.linalg.solve"],
@@ -213,7 +213,7 @@ def gen(rng, idx, tier):
         width=float(rng.choice([0.5, 1.0, 3.0])),
         min_mode=str(rng.choice(modes)), max_mode=str(rng.choice(modes)), move_mode=str(rng.choice(modes)),
         move=float(rng.choice([0.05, 0.1, 0.1, 0.2, 0.5, 1.0])),
-        x0=str(rng.choice(["rand", "rand", "lower", "upper", "mixed", "feas"])),
+        x0=str(rng.choice(["rand", "rand", "lower", "upper", "mixed", "feas", "int"])),
         version=str(rng.choice(["default", "Svanberg2007", "Svanberg1987", "Svanberg1987"])),
         asyinit=float(rng.choice([0.5, 0.5, 0.2, 0.8])), asyincr=float(rng.choice([1.2, 1.2, 1.05, 1.5])),
         asydecr=float(rng.choice([0.7, 0.7, 0.5, 0.9])), albefa=float(rng.choice([0.1, 0.1, 0.05, 0.4])),
@@ -372,6 +372,14 @@ def build(case):
         x0 = hi.copy()
     elif kind == "feas":
         x0 = xf.copy()
+    elif kind == "int":
+        # integer-valued start (held in integer-typed states, a legal input) where every variable has an integer in its range
+        k_lo, k_hi = np.ceil(lo), np.floor(hi)
+        if np.all(k_lo <= k_hi):
+            x0 = k_lo + np.floor(u * (k_hi - k_lo + 1))
+            x0 = np.minimum(x0, k_hi)
+        else:
+            x0 = lo + u * rngw
     else:
         x0 = np.where(pick == 0, lo, np.where(pick == 1, hi, lo + u * rngw))
     return dict(sizes=sizes, n=n, cum=cum, lo=lo, hi=hi, mv=mv, xf=xf, resps=resps, masks=masks, x0=x0)
@@ -447,15 +455,18 @@ def run(case):
     sig = []
     for i, (s, sz) in enumerate(zip(case["sigs"], sizes)):
         seg = x0[cum[i]:cum[i + 1]]
+        as_int = case["x0"] == "int" and bool(np.all(x0 == np.round(x0)))
         if s["kind"] == "float":
-            st = float(seg[0])
+            st = int(seg[0]) if as_int else float(seg[0])
             probe("float_signal")
         elif s["kind"] == "arr1":
-            st = np.array([seg[0]])
+            st = np.array([seg[0]]).astype(int) if as_int else np.array([seg[0]])
             probe("arr1_signal")
         else:
-            st = seg.copy()
+            st = seg.astype(int) if as_int else seg.copy()
             probe("vector_signal")
+        if as_int and i == 0:
+            probe("integer_typed_start")
         sig.append(Signal(f"x{i}", state=st))
     if len(sig) > 1:
         probe("multi_signal")
